@@ -1,5 +1,5 @@
 (* C07 — what the correspondence check evaluates on every case. *)
-From Yv Require Export Common.Base C07.Model C07.Spec.
+From Yv Require Export Common.Base C07.Model C07.Spec C07.Umask.
 
 Local Open Scope N_scope.
 
@@ -17,10 +17,12 @@ Inductive case :=
    [args Q] / [x=Q] (value of x) / [typeset x=Q] (value of x) / [args x=Q] *)
 | KQuote (s q : str) (r_arg r_assign r_decl r_argeq : reading)
 (* an arbitrary line: kind 0 = [args TEXT], 1 = [x=TEXT] (value of x),
-   2 = [typeset x=TEXT] (value of x) *)
+   2 = [typeset x=TEXT] (value of x), 3 = [x=TEXT] where x is an array
+   afterwards (its elements) *)
 | KLine (kind : N) (text : str) (r : reading)
-(* the code points for which the real char::is_whitespace is true *)
-| KWs (table : list N)
+(* the code points for which the real char::is_whitespace is true, and those
+   for which the real lex::is_token_delimiter_char is true *)
+| KWs (table delims : list N)
 (* bounded-exhaustive block: all strings prefix ++ t, t in alphabet^depth (in
    the order of [all_strs]); per string the shape the real quoter chose
    (0 bare, 1 single, 2 double), +4 if one of the four real readings was not
@@ -30,6 +32,10 @@ Inductive case :=
 (* name, value, the text [quoted(name)=quoted(value)], what [args TEXT] read
    in a directory that contains files a pattern could match *)
 | KPair (n v line : str) (r : reading)
+(* umask: with the mask [bits] the real `umask` printed [oct] and `umask -S`
+   printed [sym] (without the newline); then `umask -- OPERAND` left the mask
+   [result] (= [bits] when the operand was rejected) *)
+| KUmask (bits : N) (oct sym operand : str) (result : N)
 (* a listing: kind, the printed text, state before printing, state after a
    fresh shell evaluated the text *)
 | KListing (kind : N) (printed : str) (before after : snapshot).
@@ -89,6 +95,18 @@ Definition predict_decl (text : str) : prediction :=
   | COk _ _ => PUnknown
   | CSyntax => PError
   | COutside => PUnknown
+  end.
+
+(* [x=TEXT] with TEXT = ( ... ): the elements of the array x *)
+Definition predict_array (text : str) : prediction :=
+  match run_array_line ws (s_x_eq ++ text) with
+  | AOk n os [] =>
+      if str_eqb n [120] then
+        match fields_of os with Some l => PFields l | None => PUnknown end
+      else PUnknown
+  | AOk _ _ _ => PUnknown
+  | ASyntax => PError
+  | AOutside | AOutOfFuel => PUnknown
   end.
 
 Definition agrees (p : prediction) (r : reading) : bool :=
@@ -191,11 +209,36 @@ Definition set_text (st : snapshot) : str :=
 Definition trap_text (st : snapshot) : str :=
   flat_map (fun p => s_trap_dd ++ quote ws (snd p) ++ c_sp :: fst p ++ [c_nl]) st.
 
+(* set +o:  set +o portable / [#]set -o|+o NAME ... / set -o portable if it was on;
+   the snapshot is (option name, "on"|"off") in the order of Option::iter() *)
+Definition s_set : str := [115; 101; 116].
+Definition s_minus_o : str := [45; 111].
+Definition s_plus_o : str := [43; 111].
+Definition s_on : str := [111; 110].
+Definition s_portable : str := [112; 111; 114; 116; 97; 98; 108; 101].
+(* Option::is_modifiable is false for cmdline, interactive, stdin *)
+Definition unmodifiable : list str :=
+  [[99; 109; 100; 108; 105; 110; 101]; [105; 110; 116; 101; 114; 97; 99; 116; 105; 118; 101];
+   [115; 116; 100; 105; 110]].
+
+Definition set_o_line (flag name : str) : str := s_set ++ c_sp :: flag ++ c_sp :: name ++ [c_nl].
+Definition opt_flag (p : str * str) : str := if str_eqb (snd p) s_on then s_minus_o else s_plus_o.
+Definition opt_line (p : str * str) : str :=
+  if str_eqb (fst p) s_portable then []
+  else (if existsb (str_eqb (fst p)) unmodifiable then [c_hash] else [])
+       ++ set_o_line (opt_flag p) (fst p).
+Definition portable_on (st : snapshot) : bool :=
+  existsb (fun p => str_eqb (fst p) s_portable && str_eqb (snd p) s_on) st.
+Definition set_o_text (st : snapshot) : str :=
+  set_o_line s_plus_o s_portable ++ flat_map opt_line st
+  ++ (if portable_on st then set_o_line s_minus_o s_portable else []).
+
 Definition model_listing (kind : N) (st : snapshot) : option str :=
   match kind with
   | 0 => Some (alias_text st)
   | 1 => Some (set_text st)
   | 2 => Some (trap_text st)
+  | 6 => Some (set_o_text st)
   | _ => None
   end.
 
@@ -213,16 +256,29 @@ Definition run_case (c : case) : verdict :=
                | 0 => predict_args text
                | 1 => predict_assign text
                | 2 => predict_decl text
+               | 3 => predict_array text
                | _ => PUnknown
                end in
-      if 3 <=? kind then 99 else if agrees p r then 0 else 1
-  | KWs table => if list_eqb N.eqb table ws_table && forallb ws ws_table then 0 else 1
+      if 4 <=? kind then 99 else if agrees p r then 0 else 1
+  | KWs table delims =>
+      if list_eqb N.eqb table ws_table && forallb ws ws_table
+         && list_eqb N.eqb delims delim_table && forallb (is_token_delimiter ws) delim_table
+      then 0 else 1
   | KExh alphabet prefix depth codes =>
       exh_all (map (app prefix) (all_strs alphabet depth)) codes 0
   | KPair n v line r =>
       if negb (reading_eqb r (Some [n ++ c_eq :: v])) then 7
       else if str_eqb (quote ws n ++ c_eq :: quote ws v) line
               && agrees (predict_args line) r then 0 else 1
+  | KUmask bits oct sym operand result =>
+      let expected := match umask_set bits operand with
+                      | ROk v => Some v
+                      | RErr => Some bits
+                      | RFuel => None
+                      end in
+      if str_eqb (show_octal bits) oct && str_eqb (show_symbolic bits) sym
+         && option_eqb N.eqb expected (Some result)
+      then 0 else 1
   | KListing kind printed before after =>
       if negb (snapshot_eqb before after) then 8
       else match model_listing kind before with
